@@ -175,25 +175,15 @@ func skipFile(ctx *build.Context, p string, skipTest bool) bool {
 	if i < 0 {
 		return false
 	}
+	// Same rule as go/build: name_$(GOOS), name_$(GOARCH) or name_$(GOOS)_$(GOARCH),
+	// looking only at the last two elements of the name.
 	a := strings.Split(p[i+1:], "_")
-	last := len(a) - 1
-	if last-1 >= 0 {
-		switch x, y := a[last-1], a[last]; {
-		case x == ctx.GOOS:
-			if knownArch[y] {
-				return y != ctx.GOARCH
-			}
-			return false
-		case knownOs[x] && knownArch[y]:
-			return true
-		case knownArch[y] && y != ctx.GOARCH:
-			return true
-		default:
-			return false
-		}
+	n := len(a)
+	if n >= 2 && knownOs[a[n-2]] && knownArch[a[n-1]] {
+		return !buildTagOk(ctx, a[n-2]) || !buildTagOk(ctx, a[n-1])
 	}
-	if x := a[last]; knownOs[x] && x != ctx.GOOS || knownArch[x] && x != ctx.GOARCH {
-		return true
+	if knownOs[a[n-1]] || knownArch[a[n-1]] {
+		return !buildTagOk(ctx, a[n-1])
 	}
 	return false
 }
